@@ -308,6 +308,10 @@ func msgTypesOf(j *rig.Journal, r *rig.Rig, height int64, idx int) string {
 	return "?"
 }
 
+func hasStackTrace(log string) bool {
+	return strings.Contains(log, "goroutine ") || strings.Contains(log, "recovered:") || strings.Contains(log, "stack:")
+}
+
 func compareExec(run *ev.Run, j *rig.Journal, r *rig.Rig, a, b *execObs, what string) {
 	det := func(m map[string]any) map[string]any {
 		m["replica"] = what
@@ -333,6 +337,14 @@ func compareExec(run *ev.Run, j *rig.Journal, r *rig.Rig, a, b *execObs, what st
 				run.Violation("C11:tx-result-differs:"+mt, det(map[string]any{"height": x.Height, "tx": ti, "generator": x.Results[ti], "replica_result": y.Results[ti], "generator_log": x.Logs[ti], "replica_log": y.Logs[ti]}),
 					"height %d tx %d (%s): result %s in the generator, %s in replica %s (logs: %q vs %q)", x.Height, ti, mt, x.Results[ti], y.Results[ti], what, trunc(x.Logs[ti], 120), trunc(y.Logs[ti], 120))
 				diverged = true
+			} else if ti < len(y.Results) && ti < len(x.Logs) && ti < len(y.Logs) && x.Logs[ti] != y.Logs[ti] && !hasStackTrace(x.Logs[ti]) && !hasStackTrace(y.Logs[ti]) {
+				// the text of a refusal is part of the transaction's result too (a recovered abort prints a stack trace
+				// with addresses of the process: those texts are not compared)
+				mt := msgTypesOf(j, r, x.Height, ti)
+				run.Violation("C11:tx-log-differs:"+mt, det(map[string]any{"height": x.Height, "tx": ti, "generator_log": x.Logs[ti], "replica_log": y.Logs[ti]}),
+					"height %d tx %d (%s): equal result %s but the log reads %q in the generator and %q in replica %s", x.Height, ti, mt, x.Results[ti], trunc(x.Logs[ti], 200), trunc(y.Logs[ti], 200), what)
+			} else if ti < len(y.Results) {
+				run.Count("tx-logs-compared", 1)
 			}
 		}
 		var stores []string
